@@ -23,7 +23,8 @@ RULE = ("R-score compositions (1-4 tracks; all 30 keys; 14 meters; plain, dotted
         "get_midi_data(); the bytes are parsed by an independent strict SMF reader and the decoded events compared, as a multiset "
         "per tick plus per-(channel, pitch) on/off alternation in stream order, with the events computed from the description. "
         "VLQ encoder: dense range + neighbourhoods of all powers of two (quick), all 2^28 values (thorough). Non-trivial: a score "
-        "with a rest adjacent to a chord, a key/meter change, a leading rest with a MIDI instrument, a tempo change or repeat > 0.")
+        "with a rest adjacent to a chord, a key/meter change, a leading rest with a MIDI instrument, a tempo change or repeat > 0."
+        ' Also: values given as 288/k ticks outside the vocabulary, track names of 120-300 characters, enharmonic twin and repeated bars, tracks sharing one instrument object, and a second write of the same objects must give identical bytes.')
 ASSUMPTIONS = ["values whose exact tick length is x.5 are not generated (rounding would depend on float artefacts)",
                "order of events inside one tick is not prescribed beyond: instrument events before the first note-on, and per "
                "(channel, pitch) strict on/off alternation", "track names are ASCII; the tick of the track-name event is not compared"]
